@@ -22,6 +22,7 @@ from y0.dsl import (
     Sum,
     Variable,
     Zero,
+    _upgrade_ordering,
     _upgrade_variables,
 )
 from y0.graph import NxMixedGraph
@@ -366,7 +367,10 @@ def activate_domain_and_interventions(
             return One()
         return PopulationProbability(
             population=domain,
-            distribution=Distribution.safe(children),
+            distribution=Distribution(
+                children=_upgrade_ordering(children),
+                parents=_upgrade_ordering(set(expression.parents) - interventions),
+            ),
         ).intervene(interventions)
     if isinstance(expression, Sum):
         # TODO need full integration test to trso() function that covers this branch
